@@ -404,6 +404,7 @@ fn main() {
     let single = a.kv.get("choices").map(|c| parse_choices(c));
     for i in 0..runs {
         let seed = if a.kv.contains_key("seedx") { a.num("seedx", 0) } else { seed0.wrapping_mul(1_000_003).wrapping_add(i) };
+        mark_run(seed);
         if sub == "freerun" {
             let viol = free_run(seed);
             rep.add_run(&[format!("freerun {seed}")], true, "freerun", "Completed");
